@@ -154,3 +154,97 @@ package badger
 //@   ensures[duplicate-kept] result == nil && old(string(e.Key) in txn.pendingWrites) && old(txn.pendingWrites[string(e.Key)].version) != e.version ==> len(txn.duplicateWrites) == old(len(txn.duplicateWrites))+1 && txn.duplicateWrites[old(len(txn.duplicateWrites))] == old(txn.pendingWrites[string(e.Key)])
 //@   ensures[same-version-replaced] result == nil && !(old(string(e.Key) in txn.pendingWrites) && old(txn.pendingWrites[string(e.Key)].version) != e.version) ==> txn.duplicateWrites == old(txn.duplicateWrites)
 //@   assigns txn.count, txn.size, e.valThreshold, txn.duplicateWrites, txn.duplicateWrites[len(txn.duplicateWrites):cap(txn.duplicateWrites)], mapof(txn.pendingWrites), mapof(txn.conflictKeys), held(txn.db.bannedNamespaces.RWMutex)
+
+// ---- timestamp oracle (C02, C03, C34, C36) ----
+
+//@ func (*oracle).readTs
+//@   props C34 C01
+//@   requires !o.isManaged && o.readMark != nil && o.txnMark != nil
+//@   ensures[snapshot] result == old(o.nextTxnTs) - 1
+//@   ensures[waited] o.txnMark.doneUntil.v >= result
+//@   assert[begin-under-lock] before call Begin : held(o.Mutex) && arg0 == o.readMark && arg1 == o.nextTxnTs - 1
+//@   assigns held(o.Mutex), o.readMark.lastIndex.v, o.txnMark.doneUntil.v
+
+//@ func (*oracle).nextTs
+//@   props C11
+//@   ensures result == o.nextTxnTs
+//@   assigns held(o.Mutex)
+
+//@ func (*oracle).incrementNextTs
+//@   props C11
+//@   ensures o.nextTxnTs == old(o.nextTxnTs) + 1
+//@   assigns held(o.Mutex), o.nextTxnTs
+
+//@ func (*oracle).discardAtOrBelow
+//@   props C36 C13
+//@   requires o.readMark != nil
+//@   ensures[managed] o.isManaged ==> result == o.discardTs
+//@   ensures[watermark] !o.isManaged ==> result == o.readMark.doneUntil.v
+//@   assigns held(o.Mutex)
+
+//@ func (*oracle).doneRead
+//@   props C02 C34
+//@   requires txn != nil && o.readMark != nil
+//@   ensures txn.doneRead
+//@   assert[own-read-ts] before call Done : arg1 == txn.readTs && !old(txn.doneRead)
+//@   assigns txn.doneRead
+
+//@ func (*oracle).doneCommit
+//@   props C34 C03
+//@   requires o.txnMark != nil
+//@   assert[commit-ts] before call Done : !o.isManaged && arg0 == o.txnMark && arg1 == cts
+
+// A conflict is reported exactly when some transaction that committed after this one's read
+// timestamp wrote a key (fingerprint) this one read.
+//@ func (*oracle).hasConflict
+//@   props C02
+//@   requires txn != nil
+//@   ensures[exact] result <==> conflict(o, txn)
+//@   loop 1 invariant[range] -1 <= rangeindex && rangeindex < len(o.committedTxns)
+//@   loop 1 invariant[none-so-far] forall i int, j int :: 0 <= i && i <= rangeindex && 0 <= j && j < len(txn.reads) ==> !(o.committedTxns[i].ts > txn.readTs && txn.reads[j] in o.committedTxns[i].conflictKeys)
+//@   loop 2 invariant[range] -1 <= rangeindex && rangeindex < len(txn.reads) && 0 <= rangeindex#1 + 1 && rangeindex#1 + 1 < len(o.committedTxns)
+//@   loop 2 invariant[outer] forall i int, j int :: 0 <= i && i <= rangeindex#1 && 0 <= j && j < len(txn.reads) ==> !(o.committedTxns[i].ts > txn.readTs && txn.reads[j] in o.committedTxns[i].conflictKeys)
+//@   loop 2 invariant[current] committedTxn.ts > txn.readTs && forall i int, j int :: i == rangeindex#1 + 1 && 0 <= j && j <= rangeindex ==> !(txn.reads[j] in o.committedTxns[i].conflictKeys)
+//@   loop 2 invariant[same] committedTxn == o.committedTxns[rangeindex#1 + 1]
+
+// maxRead: the timestamp below which no open transaction can still read.
+//@ spec maxRead(o *oracle) uint64 = o.isManaged ? o.discardTs : o.readMark.doneUntil.v
+
+// Pruning the conflict log keeps every entry a still-open transaction may have to be checked
+// against (commit timestamp above the read watermark). That entries at or below the watermark
+// are removed is a memory matter and deliberately not part of the contract.
+//@ func (*oracle).cleanupCommittedTransactions
+//@   props C02
+//@   requires o.readMark != nil && o.lastCleanupTs <= maxRead(o)
+//@   ensures[kept] o.detectConflicts ==> forall i int :: 0 <= i && i < old(len(o.committedTxns)) && old(o.committedTxns[i].ts) > old(maxRead(o)) ==> exists j int :: 0 <= j && j < len(o.committedTxns) && o.committedTxns[j] == old(o.committedTxns[i])
+//@   ensures[untouched] !o.detectConflicts ==> o.committedTxns == old(o.committedTxns) && o.lastCleanupTs == old(o.lastCleanupTs)
+//@   ensures[same-array] len(o.committedTxns) <= old(len(o.committedTxns)) && o.committedTxns == old(o.committedTxns)[:len(o.committedTxns)]
+//@   ensures[watermark] o.lastCleanupTs <= old(maxRead(o)) && o.lastCleanupTs >= old(o.lastCleanupTs)
+//@   assigns o.lastCleanupTs, o.committedTxns, o.committedTxns[0:len(o.committedTxns)]
+//@   loop 1 invariant[range] -1 <= rangeindex && rangeindex < len(old(o.committedTxns))
+//@   loop 1 invariant[tmp] tmp == old(o.committedTxns)[:len(tmp)] && 0 <= len(tmp) && len(tmp) <= rangeindex + 1
+//@   loop 1 invariant[rest] forall i int :: rangeindex < i && i < len(old(o.committedTxns)) ==> old(o.committedTxns)[i] == old(o.committedTxns[i])
+//@   loop 1 invariant[kept] forall i int :: 0 <= i && i <= rangeindex && old(o.committedTxns[i].ts) > maxReadTs ==> exists j int :: 0 <= j && j < len(tmp) && tmp[j] == old(o.committedTxns[i])
+//@   loop 1 modifies old(o.committedTxns)[0:len(old(o.committedTxns))]
+
+//@ spec conflict(o *oracle, txn *Txn) bool = exists i int, j int :: 0 <= i && i < len(o.committedTxns) && 0 <= j && j < len(txn.reads) && o.committedTxns[i].ts > txn.readTs && txn.reads[j] in o.committedTxns[i].conflictKeys
+
+// Conflict check, pruning and timestamp allocation happen under one lock; a conflicting
+// transaction changes nothing; otherwise the commit gets the next timestamp (or, in managed
+// mode, exactly the caller's) and its write fingerprints are logged under that timestamp.
+//@ func (*oracle).newCommitTs
+//@   props C02 C03 C36 C34
+//@   requires txn != nil && o.readMark != nil && o.txnMark != nil && o.lastCleanupTs <= maxRead(o)
+//@   requires[watermark-below-next] !o.isManaged ==> o.readMark.doneUntil.v <= o.nextTxnTs
+//@   domain o.isManaged ==> txn.commitTs >= o.lastCleanupTs
+//@   ensures[conflict] result1 <==> old(conflict(o, txn))
+//@   ensures[conflict-no-trace] result1 ==> result0 == 0 && o.nextTxnTs == old(o.nextTxnTs) && o.committedTxns == old(o.committedTxns) && o.lastCleanupTs == old(o.lastCleanupTs) && txn.doneRead == old(txn.doneRead)
+//@   ensures[next-ts] !result1 && !o.isManaged ==> result0 == old(o.nextTxnTs) && o.nextTxnTs == old(o.nextTxnTs) + 1
+//@   ensures[managed-ts] !result1 && o.isManaged ==> result0 == txn.commitTs && o.nextTxnTs == old(o.nextTxnTs)
+//@   ensures[logged] !result1 && o.detectConflicts ==> len(o.committedTxns) >= 1 && o.committedTxns[len(o.committedTxns)-1].ts == result0 && o.committedTxns[len(o.committedTxns)-1].conflictKeys == txn.conflictKeys
+//@   ensures[not-logged] !o.detectConflicts ==> o.committedTxns == old(o.committedTxns)
+//@   ensures[unlocked] !held(o.Mutex)
+//@   assert[locked-check] before call hasConflict : held(o.Mutex)
+//@   assert[locked-cleanup] before call cleanupCommittedTransactions : held(o.Mutex)
+//@   assert[locked-begin] before call Begin : held(o.Mutex) && arg0 == o.txnMark && arg1 == old(o.nextTxnTs)
+//@   assigns held(o.Mutex), o.nextTxnTs, o.lastCleanupTs, o.committedTxns, o.committedTxns[0:cap(o.committedTxns)], txn.doneRead, o.txnMark.lastIndex.v
